@@ -3,6 +3,8 @@
 MC/IX: MC_Phase - every alternating placement of extrema >= 2 samples apart on arrays up to the bound, either kind first, without
        midpoints or with one midpoint per flank at any position of the flank: the model (linear interpolation in quarter turns) satisfies
        the four statements of C17 (INVARIANTs); the real function's output is judged by the same four statements on rank codes of its floats.
+PROOF: PhaseProof.tla (TLAPS, 28 obligations): for ALL segment end values and ALL segment lengths the linear interpolant takes the end
+       values at the anchors, stays between them, and never decreases along the segment (TLC checks arrays up to the bound only).
 TV   : phases of generated signals from find_extrema (any boundary / first_extrema / pad) + find_zerox, with and without midpoints.
 """
 import math
@@ -14,6 +16,7 @@ import numpy as np
 import gen
 import ix_phase
 import project as pj
+import tlaps
 import tlc
 import tv
 
@@ -98,15 +101,20 @@ def run_tv(ctx, n_cases, max_len=800):
     ctx.parts.append({'part': 'corpus.phase', 'cases': len(recs), 'last_cyclepoint_within_2_of_end': sum(1 for m in metas if m['last_cyclepoint_to_end'] <= 2)})
 
 
+PROOF_THEOREMS = ['AtTheAnchors', 'WithinTheSegment', 'NeverDecreases', 'MulMono']
+
+
 def run(ctx):
     ctx.rule = ('MC/IX: every valid cyclepoint placement up to the length bound (all non-trivial); TV: cyclepoints from find_extrema/find_zerox on '
                 'generated signals (non-trivial = midpoints supplied or last cyclepoint within 2 samples of the end)')
     ctx.assumptions = ['the implementation is judged by the four statements of C17 on rank codes of its own floats; agreement with the model\'s linear interpolation is only noted']
     if ctx.quick:
         run_mc(ctx, 10)
+        tlaps.run_proof(ctx, 'PhaseProof', PROOF_THEOREMS)
         run_tv(ctx, 150)
     else:
         run_mc(ctx, 13)
+        tlaps.run_proof(ctx, 'PhaseProof', PROOF_THEOREMS)
         run_tv(ctx, 3000, max_len=2600)
 
 
